@@ -202,13 +202,23 @@ def model_check(
     timeout: int = 3600,
     extra_args: Optional[List[str]] = None,
     expect_violation: bool = False,
+    cfg_subst: Optional[Dict[str, str]] = None,
 ) -> Dict[str, Any]:
-    """Run TLC on spec/<module>.tla with spec/<cfg>. Returns stats."""
+    """Run TLC on spec/<module>.tla with spec/<cfg>. Returns stats.
+    cfg_subst rewrites the configuration text (used to switch deviations on)."""
     d = scratch("mc-" + module)
     try:
         for name in os.listdir(SPEC):
             if name.endswith(".tla") or name.endswith(".cfg"):
                 shutil.copy(os.path.join(SPEC, name), d)
+        if cfg_subst:
+            text = open(os.path.join(d, cfg)).read()
+            for old, new in cfg_subst.items():
+                if old not in text:
+                    raise TLCError("cfg substitution %r not applicable to %s" % (old, cfg))
+                text = text.replace(old, new)
+            with open(os.path.join(d, cfg), "w") as f:
+                f.write(text)
         props = os.path.join(SPEC, "props")
         for name in os.listdir(props):
             if name.endswith(".tla"):
